@@ -45,6 +45,22 @@ PAYLOADS = {
 DIRECT = {g: _graphml(_payload_graph(['1', '2'], ['a', 'b'], gid=g, extra={'D': 'direct'})) for g in GIDS}
 
 
+def _payload_canon(text, is_json):
+    import tempfile
+    if is_json:
+        g = nx.readwrite.node_link_graph(json.loads(text))
+    else:
+        with tempfile.NamedTemporaryFile('w', suffix='.graphml') as f:
+            f.write(text)
+            f.flush()
+            g = nx.read_graphml(f.name)
+    return canon_nx(g, drop_graph_id=True)
+
+
+PAYLOAD_CANON = {'P1': _payload_canon(PAYLOADS['P1'], False), 'P2': _payload_canon(PAYLOADS['P2'], True)}
+DIRECT_CANON = _payload_canon(DIRECT['G1'], False)
+
+
 class StoreModel(Model):
     def __init__(self, flavour):
         self.flavour = flavour
@@ -191,6 +207,17 @@ class StoreModel(Model):
                 v.append((f'frame/{self.flavour}/{k}',
                           f'[{self.flavour}] {ev} (outcome {outcome}) addressed to {target} changed graph {gid}: '
                           f'before={_brief(pre.get(gid))} after={_brief(post.get(gid))}'))
+        # re-import under an id: the shared store replaces the graph of that id, the per-graph store keeps a live graph
+        # (documented skip) - in both cases the result is exactly one of the two graphs, never a mixture
+        if k in ('import', 'import_direct') and outcome[0] == 'ok':
+            want = PAYLOAD_CANON[ev[2]] if k == 'import' else DIRECT_CANON
+            got = _strip_gid(post[target]) if target in post else None
+            had = _strip_gid(pre[target]) if target in pre else None
+            allowed = [want] if (self.flavour == 'shared' or had is None or k == 'import_direct') else [had]
+            if got not in allowed:
+                v.append((f'import-content/{self.flavour}/{k}',
+                          f'[{self.flavour}] {ev}: graph {target} holds {_brief(post.get(target))}, expected '
+                          f'{"the imported payload" if allowed == [want] else "the live graph kept (documented skip)"}'))
         # no two stored nodes share an internal identity: a successful add_node adds exactly one node to its graph
         if k == 'add_node' and outcome[0] == 'ok':
             before = sorted(n[0][1] for n in pre.get(target, ((), ()))[0])
@@ -252,10 +279,23 @@ class StoreModel(Model):
         # look-ahead probes: the next allocation must not disturb any resident graph
         snap = self.snapshot()
         pre = self.observe()
-        for probe in (('add_node', 'PROBE', 'p'), ('import', 'PROBE', 'P2')):
-            self.apply(probe)
+        probes = [('add_node', 'PROBE', 'p'), ('import', 'PROBE', 'P2')]
+        # also allocate inside every id the store knows (resident graphs and emptied ones): the new node must not take
+        # over the identity of a node of that graph either
+        known = set(pre) | (set(k for k in world.disjoint_store().graphs.keys()) if fl == 'disjoint' else set())
+        probes += [('add_node', gid, 'probe-node') for gid in sorted(known) if gid in GIDS]
+        for probe in probes:
+            out = self.apply(probe)
             post = self.observe()
+            if probe[0] == 'add_node' and probe[1] != 'PROBE' and out[0] == 'ok':
+                before = sorted(n[0][1] for n in pre.get(probe[1], ((), ()))[0])
+                after = sorted(n[0][1] for n in post.get(probe[1], ((), ()))[0])
+                if after != sorted(before + [probe[2]]):
+                    v.append((f'identity/{fl}/probe-add_node-overwrote',
+                              f'[{fl}] adding a node to {probe[1]} (NodeIDs {before}) left {after}'))
             for gid in pre:
+                if gid == probe[1]:
+                    continue
                 if pre[gid] != post.get(gid):
                     v.append((f'frame/{fl}/probe-{probe[0]}',
                               f'[{fl}] allocating in a fresh graph ({probe}) changed resident graph {gid}: '
